@@ -101,6 +101,26 @@ PROBES = {
     "python-builtins": "local f = mw_python_get_page_info local c = f and try(function() return f.args[0] end) "
                        "local g = c and try(function() return c.start_page end) return g ~= nil and 'ESCAPE:python-object:Wtp.start_page' or 'ok'",
     "tostring-leak": "return 'ok'",
+    # ---- error values: a Python exception handed to pcall is an object with attributes of its own
+    "error-values": "local seen, fns, hit = {}, {}, nil "
+                    "local function walk(t, path, d) if type(t) ~= 'table' or seen[t] or d > 3 then return end seen[t] = true "
+                    "for k, v in pairs(t) do local p = path .. '.' .. tostring(k) "
+                    "if type(v) == 'function' or type(v) == 'userdata' then fns[#fns + 1] = {p, v} elseif type(v) == 'table' then walk(v, p, d + 1) end end end "
+                    "walk(_G, '_G', 0) walk(mw, 'mw', 0) walk(frame, 'frame', 0) "
+                    "local skip = {['_G.error'] = 1, ['_G.assert'] = 1, ['_G.require'] = 1, ['_G.collectgarbage'] = 1, ['_G.print'] = 1} "
+                    "local sensitive = {'add_page', 'db_conn', 'lua', 'start_page', 'get_page_body', 'expand', 'db_path', 'lua_env_stack'} "
+                    "local function inspect(e, path, d) if hit or d > 3 then return end "
+                    "if type(e) ~= 'userdata' and type(e) ~= 'table' then return end "
+                    "for _, a in ipairs(sensitive) do local v = try(function() return e[a] end) if v ~= nil and type(e) == 'userdata' then hit = path .. ' has ' .. a return end end "
+                    "for _, a in ipairs({'obj', 'args', 'name', 'value', 'object', 'filename', 'tb_frame', 'f_locals', 'f_globals', 'gi_frame', 'func', 'keywords', 'cause', 'context'}) do "
+                    "local v = try(function() return e[a] end) if v ~= nil then inspect(v, path .. '.' .. a, d + 1) end end "
+                    "if type(e) == 'userdata' then for i = 0, 3 do local v = try(function() return e[i] end) if v ~= nil then inspect(v, path .. '[' .. i .. ']', d + 1) end end end end "
+                    "for _, pf in ipairs(fns) do local p, f = pf[1], pf[2] "
+                    "if not skip[p] and not p:find('timeout') and not p:find('loadstring') and not p:find('^_G%.string%.rep') and not p:find('dofile') and not p:lower():find('wikibase') and not p:lower():find('wikidata') and not p:lower():find('entity') then "
+                    "for _, av in ipairs({{}, {1}, {'x'}, {{}}, {frame}, {'x', 'y', 'z'}}) do "
+                    "local ok, e = pcall(f, unpack(av)) if not ok then inspect(e, 'error of ' .. p, 0) end if hit then break end end end if hit then break end end "
+                    "return hit and ('ESCAPE:python-object:' .. hit) or 'ok'",
+
     # ---- loader path games
     "require-path-traversal": "local m = try(require, '../../../etc/passwd') return m ~= nil and 'ESCAPE:loader-path' or 'ok'",
     "require-abs": "local m = try(require, '/etc/hostname') return m ~= nil and 'ESCAPE:loader-path' or 'ok'",
